@@ -4,7 +4,7 @@
    configurations [c] (override table, wrapper present or not, key, failure oracles of the AEAD / HMAC calls), all
    payload trees and all event-wrapper infos. *)
 From Coq Require Import List Bool NArith ZArith String.
-From Verif Require Import Tag Encrypt EncryptSpec EncryptProofs.
+From Verif Require Import Tag Encrypt EncryptSpec EncryptProofs Run_Encrypt RunEncryptSound.
 Import ListNotations.
 
 (* no_leak: whenever Process forwards an event for a payload of the grammar, the forwarded payload is clean: at every
@@ -129,3 +129,22 @@ Theorem C09_nonvacuous_fails_closed :
   process {| c_ov := no_overrides; c_wrap := false; c_key := 1%N; c_encfail := fun _ => false; c_hmacfail := fun _ => false |} 2%N (PVal None ex_payload) = RErr /\
   process cfg0 2%N PRotate = RConsumed /\ process cfg0 2%N PNil = RSame.
 Proof. exact ex_fails_closed. Qed.
+
+(* the tie: what the correspondence check's verdict means.  Run_Encrypt.mismatches evaluates to [] (by vm_compute, on the cases
+   the harness printed) exactly when every case is accepted: the observed outcome of Process is the model's (same event /
+   consumed / error as Encrypt.process says; a forwarded payload agrees with the model's position by position, up to HMACs over
+   texts nobody can recompute), and the observation-only oracles hold (input equal to its snapshot, also after the forwarded
+   event was rewritten; observed payload clean and shape-preserving where theorems no_leak / shape_preserved apply; nothing
+   below unexported fields lost - the known finding F10 is the one oracle the C09 check reports as KNOWN-FINDING).  The C09 check
+   itself looks at the kinds of mismatch that speak about C09, a subset: an empty list is the stronger statement. *)
+Theorem C09_verdict_is_model_execution : forall cs, mismatches cs = [] <-> Forall case_accepted cs.
+Proof. exact RunEncryptSound.mismatches_nil_iff. Qed.
+Print Assumptions C09_verdict_is_model_execution.
+
+(* an accepted forwarded payload is, up to that agreement, the specification applied to the private copy *)
+Theorem C09_accepted_forwarded_is_model : forall e ewi x o fl,
+  e_snaponly e = false -> case_accepted e -> e_payload e = PVal ewi x -> e_obs e = ObOut o fl ->
+  exists m, process (cfg_of e) (e_ekey e) (PVal ewi x) = ROut m /\ agree m o /\
+            m = spec (e_ov e) (key_of (cfg_of e) (e_ekey e) ewi) (CTop false) (copyz x).
+Proof. exact accepted_forwarded_is_model. Qed.
+Print Assumptions C09_accepted_forwarded_is_model.
